@@ -15,3 +15,26 @@ func ShelfFor(wareID api.WareID) fs.RelPath {
 		chunk1, chunk2, wareID.Hash,
 	))
 }
+
+// ShelfForResult is where the tree of an unpack of `wareID` with `filt`, which the unpacker reported as
+//  `resultWareID`, is shelved.  That is ShelfFor(resultWareID), with one exception:
+//  the unpacker may answer the id of the *unfiltered* ware for a filtered tree -- it has no id for one (git), or
+//  the filter only touched what the tree hash does not cover (devices dropped by dev=ignore).
+//  Such a tree must never sit on the shelf that lossless requests for that id are served from:
+//  it gets a shelf of its own, keyed by the filter as well.
+func ShelfForResult(wareID, resultWareID api.WareID, filt api.FilesetUnpackFilter) fs.RelPath {
+	if filt.Altering() && resultWareID == wareID {
+		return ShelfFor(api.WareID{wareID.Type, wareID.Hash + "+" + filterKey(filt)})
+	}
+	return ShelfFor(resultWareID)
+}
+
+// filterKey spells a filter as one path segment.
+func filterKey(ff api.FilesetUnpackFilter) string {
+	uf, um, ut := ff.Uid()
+	gf, gm, gt := ff.Gid()
+	mf, mn, mt := ff.MtimeUnix()
+	sf, sr := ff.Setid()
+	df, dr := ff.Dev()
+	return fmt.Sprintf("filtered.u%v.%v.%d.g%v.%v.%d.m%v.%v.%d.s%v.i%v.%v.d%v.%v", uf, um, ut, gf, gm, gt, mf, mn, mt, ff.Sticky(), sf, sr, df, dr)
+}
